@@ -257,12 +257,17 @@ func (c *c15) plainFraming() {
 		if !ok {
 			continue
 		}
+		// the loop counts 0..len(genome.<list>)-1, however the test is spelled
 		ct := wtm.Of(iff.Cond)
-		if !(ct.Op == "bin" && ct.Name == "<" && ct.Args[1].Op == "len" && ct.Args[1].Args[0].Op == "field" && isParamIdx(ct.Args[1].Args[0].Args[0], 1)) {
+		var bt *Term
+		if _, bound, okc := countsUp(l); okc {
+			bt = wtm.Of(bound)
+		}
+		if !(bt != nil && bt.Op == "len" && bt.Args[0].Op == "field" && isParamIdx(bt.Args[0].Args[0], 1)) {
 			r.Bad(label+".writer.loop", p.Pos(firstBlockPos(l.Header)), "a loop of the genome writer does not range over a list of the genome: "+ct.String())
 			continue
 		}
-		field := ct.Args[1].Args[0].Name
+		field := bt.Args[0].Name
 		var kw, nl *fmtCall
 		kwText := ""
 		var elemCall ssa.CallInstruction
@@ -404,6 +409,7 @@ func (c *c15) plainFraming() {
 		}
 	})
 	r.Floor("keyword split", nSplit, 1)
+	c.lineSplitAccepts(label+".reader.split", rfn, 2)
 	// genome id: header/trailer written from g.Id, trailer id restored into Id
 	var start, end *fmtCall
 	for i := range calls {
@@ -450,15 +456,7 @@ func (c *c15) plainFraming() {
 	}
 	r.Check(okId, label+".id", p.Pos(rfn.Pos()), "the id of the genomeend line is restored into Genome.Id", "the genome id written on the genomeend line is not restored into Genome.Id")
 	// flush
-	flushed := false
-	Instrs(wfn, func(_ *ssa.BasicBlock, _ int, in ssa.Instruction) {
-		if ci, ok := in.(ssa.CallInstruction); ok {
-			if n, _ := calleeName(ci.Common()); n == "bufio.Writer.Flush" {
-				flushed = true
-			}
-		}
-	})
-	r.Check(flushed, label+".flush", p.Pos(wfn.Pos()), "the buffered writer is flushed", "the buffered writer is never flushed: the tail of the genome is lost")
+	c.flushedOnSuccess(label, wfn)
 
 	// Genome.Write / ReadGenome choose the same (plain) encoding; ReadGenome installs the id it is given
 	gw, rg := p.Func(PkgG, "Genome.Write"), p.Func(PkgG, "ReadGenome")
@@ -494,8 +492,8 @@ func (c *c15) plainFraming() {
 				continue
 			}
 			for _, g := range Guards(b) {
-				if bin, ok := g.Cond.(*ssa.BinOp); ok && bin.Op == token.EQL && g.True {
-					if k, ok := bin.Y.(*ssa.Const); ok && k.Value != nil {
+				if _, cy, op, okc := CmpFact(g.Cond, g.True); okc && op == token.EQL {
+					if k, ok := cy.(*ssa.Const); ok && k.Value != nil {
 						got[k.Value.ExactString()] = rt.String()
 					}
 				}
@@ -622,9 +620,11 @@ func (c *c15) yamlFraming() {
 	}
 	// writer: key -> (encode function, genome field) for list keys; id; root key
 	wsec := map[string]section{}
+	wIns := map[string]ssa.Instruction{}
 	var idKey, rootKey string
 	var gmap ssa.Value
 	for _, w := range ws {
+		wIns[w.Key] = w.In
 		vt := wtm.Of(w.Val)
 		switch {
 		case vt.String() == "p1.Id":
@@ -713,6 +713,68 @@ func (c *c15) yamlFraming() {
 		}
 	}
 	keys := sortedKeys(wsec)
+	// a list that is there is written, and a section that is there is read: with the tests "is the list / the key there"
+	// (len(g.F) against a constant, g.F or doc[key] against nil) decided for a non-empty list, no path that returns
+	// without an error skips the store of the section / the loop over it. (`if len(g.ControlGenes) > 0` and
+	// `if doc["modules"] != nil` around the module section are such tests; inverted, genomes with modules lose them.)
+	rLoopOf := map[string]*Loop{}
+	rLoops := Loops(rfn)
+	for _, l := range rLoops {
+		for b := range l.Blocks {
+			for _, in := range b.Instrs {
+				if cl, ok := in.(*ssa.Call); ok && InnermostLoop(rLoops, b) == l {
+					for k, rs := range rsec {
+						if rs.pos == cl.Pos() && cl.Call.StaticCallee() != nil && cl.Call.StaticCallee().Name() == rs.fn {
+							rLoopOf[k] = l
+						}
+					}
+				}
+			}
+		}
+	}
+	for _, k := range keys {
+		w := wsec[k]
+		if in := wIns[k]; in != nil {
+			field := w.field
+			fixed := c15PresenceFacts(wfn, wtm, func(t *Term) bool {
+				return t.Op == "field" && t.Name == field && len(t.Args) > 0 && isParamIdx(t.Args[0], 1)
+			})
+			path := c15SuccessPath(p, c15SuccessQuery{fn: wfn, fixed: fixed, explored: &r.PathsExplored, avoid: func(i ssa.Instruction) bool { return i == in }})
+			r.Check(path == nil, label+".section-written:"+k, p.Pos(in.Pos()), fmt.Sprintf("a non-empty %s list is stored under %q on every path that returns without an error", field, k),
+				fmt.Sprintf("the writer can return without an error and without storing a non-empty %s list under %q: the %s are lost", field, k, strings.ToLower(field)), path...)
+		}
+		if l := rLoopOf[k]; l != nil {
+			key := k
+			fixed := c15PresenceFacts(rfn, rtm, func(t *Term) bool {
+				for t.Op == "assert" || t.Op == "iface" || t.Op == "extract" {
+					if len(t.Args) == 0 {
+						return false
+					}
+					t = t.Args[0]
+				}
+				return t.Op == "lookup" && len(t.Args) > 1 && t.Args[1].Op == "const" && strings.Trim(t.Args[1].Name, `"`) == key
+			})
+			path := c15SuccessPath(p, c15SuccessQuery{fn: rfn, fixed: fixed, explored: &r.PathsExplored, avoid: func(i ssa.Instruction) bool { return i.Block() == l.Header }})
+			r.Check(path == nil, label+".section-read:"+k, p.Pos(rsec[k].pos), fmt.Sprintf("a section %q that is there is iterated on every path that returns without an error", k),
+				fmt.Sprintf("the reader can return without an error and without iterating a section %q that is present: the %s are not restored", k, strings.ToLower(w.field)), path...)
+		}
+	}
+	c.flushedOnSuccess(label, wfn)
+	// the document the writer produces is accepted: with every comma-ok type assertion succeeding, some path returns
+	// without an error (an inverted `if !ok` rejects every file)
+	{
+		vals := map[ssa.Value]envVal{}
+		Instrs(rfn, func(_ *ssa.BasicBlock, _ int, in ssa.Instruction) {
+			if ex, ok := in.(*ssa.Extract); ok && ex.Index == 1 {
+				if ta, isTA := ex.Tuple.(*ssa.TypeAssert); isTA && ta.CommaOk {
+					vals[ex] = envVal{known: true, c: constant.MakeBool(true)}
+				}
+			}
+		})
+		path := c15SuccessPath(p, c15SuccessQuery{fn: rfn, vals: vals, explored: &r.PathsExplored})
+		r.Check(path != nil, label+".accepts", p.Pos(rfn.Pos()), "with every type assertion on the document succeeding, the reader can return without an error",
+			"with every type assertion on the document succeeding the reader only returns errors: it rejects the documents the writer produces")
+	}
 	for _, k := range keys {
 		w := wsec[k]
 		cons := label + ".section:" + k
@@ -871,6 +933,9 @@ func (c *c15) yamlModuleLinks() {
 	ws, _ := mapWrites(wfn)
 	type side struct{ listField, endField string }
 	want := map[string]side{"inputs": {"Incoming", "InNode"}, "outputs": {"Outgoing", "OutNode"}}
+	var linkWrites []ssa.Instruction // every write into the link lists of the control node under construction
+	var listFields []*types.Var
+	ctlTerm := ""
 	for _, key := range []string{"inputs", "outputs"} {
 		sd := want[key]
 		cons := label + "." + key
@@ -878,6 +943,11 @@ func (c *c15) yamlModuleLinks() {
 		okW := false
 		for _, w := range ws {
 			if w.Key != key {
+				continue
+			}
+			// the list is made with the length of the link list it encodes (a list of another length panics on the
+			// store or carries empty entries the reader cannot take)
+			if mk, isMk := w.Val.(*ssa.MakeSlice); isMk && wtm.Of(mk.Len).String() != "len(p1.ControlNode."+sd.listField+")" {
 				continue
 			}
 			for _, st := range elemStoresInto(wfn, w.Val) {
@@ -898,6 +968,7 @@ func (c *c15) yamlModuleLinks() {
 		// reader: ControlNode.<list>[i] = NewLink(_, a, b, _) with the far end NodeWithId(conf[key][i][idKey]) and the near end the control node
 		okR, why := false, "no store into "+sd.listField
 		listF := p.Field(PkgN, "NNode", sd.listField)
+		listFields = append(listFields, listF)
 		Instrs(rfn, func(_ *ssa.BasicBlock, _ int, in ssa.Instruction) {
 			st, ok := in.(*ssa.Store)
 			if !ok {
@@ -935,7 +1006,28 @@ func (c *c15) yamlModuleLinks() {
 				far, near = out0, in0
 			}
 			ctl := lt.Args[0] // the control node
+			ctlTerm = ctl.String()
+			linkWrites = append(linkWrites, st)
 			sf := &slotFinder{docParam: func(t *Term) bool { return isParamIdx(t, 0) }}
+			// the position the far end was looked up for: the index of this store, or - when the ids were resolved into a
+			// local node list in a first pass and the links are built from that list - the index of the first pass's store,
+			// the link being built from the list element at this store's index
+			posIdx := ia.Index
+			if !(far.Op == "call" && far.Name == "NodeWithId") {
+				if lc, isCall := st.Val.(*ssa.Call); isCall && len(lc.Call.Args) >= 4+off {
+					farV := lc.Call.Args[1+off]
+					if sd.endField == "OutNode" {
+						farV = lc.Call.Args[2+off]
+					}
+					if w, sIdx, lIdx, okL := c15ResolvedListElem(farV); okL {
+						if lIdx != ia.Index {
+							why = "the link is not stored at the position its far end has in the resolved node list"
+							return
+						}
+						far, posIdx = rtm.Of(w), sIdx
+					}
+				}
+			}
 			if !(far.Op == "call" && far.Name == "NodeWithId") {
 				why = fmt.Sprintf("the %s end of a restored %s link is %s, not the node looked up by the written id", sd.endField, key, far)
 				return
@@ -952,7 +1044,7 @@ func (c *c15) yamlModuleLinks() {
 			// same position: index of the store = position in the list read from the wire
 			idxOK := false
 			far.Args[0].Walk(func(x *Term) bool {
-				if x.Op == "elem" && len(x.Args) > 1 && x.Args[1].V == ia.Index {
+				if x.Op == "elem" && len(x.Args) > 1 && x.Args[1].V == posIdx {
 					idxOK = true
 				}
 				return true
@@ -961,13 +1053,117 @@ func (c *c15) yamlModuleLinks() {
 				why = "the link is not stored at the position it has in the written list"
 				return
 			}
-			// list sized by the written list
+			// the looked-up node is used when it was found: a link built under "the looked-up node is nil" has no far end
+			if lc, isCall := st.Val.(*ssa.Call); isCall && len(lc.Call.Args) >= 4+off {
+				farV := lc.Call.Args[1+off]
+				if sd.endField == "OutNode" {
+					farV = lc.Call.Args[2+off]
+				}
+				for _, g := range Guards(st.Block()) {
+					if GuardNilness(g, func(v ssa.Value) bool { return v == farV }) == 1 {
+						why = fmt.Sprintf("the %s link is built only when the node looked up by the written id is nil", key)
+						return
+					}
+				}
+			}
+			// list sized by the written list: the list the link goes into was installed in the control node as
+			// make(.., n), n the length of the list the loop of this store runs over (a list of another length - the
+			// constructor's empty one - has no slot i)
+			sized := false
+			if l := InnermostLoop(Loops(rfn), st.Block()); l != nil {
+				if _, bound, okc := countsUp(l); okc {
+					for _, fs := range FieldStores(rfn, listF) {
+						if rtm.Of(fs.Addr.(*ssa.FieldAddr).X).String() != ctl.String() || !instrBefore(fs, st) {
+							continue
+						}
+						if ms, isMS := stripPtr(fs.Val).(*ssa.MakeSlice); isMS && c15SameLen(ms.Len, bound) {
+							sized = true
+						}
+					}
+				}
+			}
+			if !sized {
+				why = fmt.Sprintf("the list %s the links are stored into is not made with the length of the written %s list before the links are stored", sd.listField, key)
+				return
+			}
 			okR = true
 		})
 		r.Check(okW && okR, cons, p.Pos(rfn.Pos()), fmt.Sprintf("%s[i] <- %s[i].%s.Id, restored as %s[i] with the looked-up node at the %s end", key, sd.listField, sd.endField, sd.listField, sd.endField),
 			fmt.Sprintf("module %s: writer ok=%v; reader: %s", key, okW, why))
 	}
 	// NeuronType of a restored control node is Hidden (what NewMIMOGene / duplicate expect)
+
+	// The link lists are complete before anything reads them. NewMIMOGene copies the endpoints of the control node's
+	// links into the gene's private ioNodes list when the gene is built (nothing else on the wire carries that list): a
+	// gene built while Incoming/Outgoing are still empty or partly filled reads back with a shorter ioNodes list - it no
+	// longer equals the written gene and hasIntersection() misses its nodes (crossover drops the module).
+	if ctlTerm == "" {
+		return
+	}
+	isListF := func(f *types.Var) bool {
+		for _, lf := range listFields {
+			if lf == f {
+				return true
+			}
+		}
+		return false
+	}
+	for _, lf := range listFields {
+		for _, fs := range FieldStores(rfn, lf) {
+			if rtm.Of(fs.Addr.(*ssa.FieldAddr).X).String() == ctlTerm {
+				linkWrites = append(linkWrites, fs)
+			}
+		}
+	}
+	isWrite := map[ssa.Instruction]bool{}
+	for _, w := range linkWrites {
+		isWrite[w] = true
+	}
+	// readers: calls that receive the control node and load one of its link lists; element reads in the reader itself
+	readsLinks := func(cal *ssa.Function, k int) bool {
+		if cal == nil || !InRepo(cal) || len(cal.Blocks) == 0 || k >= len(cal.Params) {
+			return false
+		}
+		found := false
+		Instrs(cal, func(_ *ssa.BasicBlock, _ int, in ssa.Instruction) {
+			if u, ok := in.(*ssa.UnOp); ok && u.Op == token.MUL {
+				if fa, ok := u.X.(*ssa.FieldAddr); ok && fa.X == ssa.Value(cal.Params[k]) && isListF(fieldOf(fa.X.Type(), fa.Field)) {
+					found = true
+				}
+			}
+		})
+		return found
+	}
+	var readers []ssa.Instruction
+	Instrs(rfn, func(_ *ssa.BasicBlock, _ int, in ssa.Instruction) {
+		switch x := in.(type) {
+		case ssa.CallInstruction:
+			for k, a := range x.Common().Args {
+				if rtm.Of(a).String() == ctlTerm && readsLinks(x.Common().StaticCallee(), k) {
+					readers = append(readers, in)
+				}
+			}
+		case *ssa.UnOp:
+			// an element of one of the lists is read here: *(&ctl.<list>[i])
+			if ia, ok := x.X.(*ssa.IndexAddr); ok && x.Op == token.MUL {
+				if lt := rtm.Of(ia.X); lt.Op == "field" && lt.Obj != nil && len(lt.Args) > 0 && lt.Args[0].String() == ctlTerm {
+					if f, isVar := lt.Obj.(*types.Var); isVar && isListF(f) {
+						readers = append(readers, in)
+					}
+				}
+			}
+		}
+	})
+	var badPath []string
+	badAt := ""
+	for _, rd := range readers {
+		if path := FindPath(p, PathQuery{Fn: rfn, StartAfter: rd, FlagBlind: true, Explored: &r.PathsExplored, Target: func(in ssa.Instruction) bool { return isWrite[in] }}); path != nil && badPath == nil {
+			badPath, badAt = path, p.Pos(rd.Pos())
+		}
+	}
+	r.Check(badPath == nil, label+".complete-before-use", p.Pos(rfn.Pos()),
+		fmt.Sprintf("every use of the control node's links (%d, among them the gene constructor that copies their endpoints into ioNodes) comes after the last write into Incoming/Outgoing", len(readers)),
+		"the control node's links are read at "+badAt+" (the gene constructor copies their endpoints into the private ioNodes list) while Incoming/Outgoing are still being filled afterwards: the restored gene's ioNodes list misses the nodes linked later", badPath...)
 }
 
 // inverseNames: NeuronTypeName and NeuronTypeByName are inverse on every constant of the type.
@@ -988,14 +1184,14 @@ func (c *c15) inverseNames() {
 				continue
 			}
 			for _, g := range Guards(b) {
-				bin, ok := g.Cond.(*ssa.BinOp)
-				if !ok || bin.Op != token.EQL || !g.True {
+				cx, cy, op, okc := CmpFact(g.Cond, g.True)
+				if !okc || op != token.EQL {
 					continue
 				}
-				if !isParamIdx(tm.Of(bin.X), 0) {
+				if !isParamIdx(tm.Of(cx), 0) {
 					continue
 				}
-				if kc, ok := bin.Y.(*ssa.Const); ok && kc.Value != nil {
+				if kc, ok := cy.(*ssa.Const); ok && kc.Value != nil {
 					out[kc.Value.ExactString()] = k.Value.ExactString()
 				}
 			}
